@@ -60,7 +60,7 @@ class _BaseAttribute(ABC):
                 return cls.Int
             if txt in {"bool", "\"bool\""}:
                 return cls.Bool
-            if txt in {"str", "string"}:
+            if txt in {"str", "string", "\"str\"", "\"string\""}:
                 return cls.String
             raise Exception(f"String '{txt}' corresponds to no attribute type")
 
@@ -73,7 +73,9 @@ class _BaseAttribute(ABC):
             return {
                 "Bool" : 1,
                 "Int" : 4,
-                "Float" : 8
+                "Float" : 8,
+                "Complex" : 16,
+                "String" : 32
             }.get(self.name, None)
 
         @property
